@@ -57,7 +57,7 @@ def getTrig (j : Json) : Except String (List (Rat × Rat) × List (Rat × Rat)) 
       | _ => throw "trig row [arg, cos, sin] expected"
     pure (rows.map fun (a, c, _) => (a, c), rows.map fun (a, _, s) => (a, s))
 
-def getInt (j : Json) : Except String Int :=
+def fourierGetInt (j : Json) : Except String Int :=
   match j with
   | .num n => if n.exponent = 0 then .ok n.mantissa else .error "integer expected"
   | .str s => match s.toInt? with | some i => .ok i | none => .error "integer expected"
@@ -77,7 +77,7 @@ def h_fourier : Handler := fun j => do
   let w ← getWaveObj j
   let π := PQ.ofRat (← getRatK j "pi")
   let (ct, st) ← getTrig j
-  let ns ← (← getArr j "ns").toList.mapM getInt
+  let ns ← (← getArr j "ns").toList.mapM fourierGetInt
   match fourierSeries w with
   | .error e => pure (Json.mkObj [("err", e)])
   | .ok h =>
